@@ -42,6 +42,8 @@ def run_property(pid, tier, allfacts, meta, seed=0):
     views = {cfg: {crate: Facts(d) for crate, d in crates.items()} for cfg, crates in allfacts.items()}
     try:
         mod.check(run, views, tier)
+        from . import selfcheck
+        selfcheck.run_selfchecks(run, pid, views)
     except Exception as e:  # fail closed: an engine crash is never a pass
         traceback.print_exc()
         run.cfg = None
